@@ -190,6 +190,28 @@ pub fn naming_sources() -> Vec<String> {
     out
 }
 
+/// Long uniquifier chains: a helper name together with ALL its suffixed forms 2..k as extra (unreachable)
+/// unit structs, for k around 9/10/11 (two-digit suffixes) and 99/100/101 (three-digit suffixes).
+pub fn chain_sources() -> Vec<String> {
+    let helpers = ["State", "Node", "Action", "RuleKind", "Eof", "Quasiterminal", "QuasiterminalKind", "NonterminalKind", "S", "ACTION_TABLE", "GOTO_TABLE", "Terminal", "reduce"];
+    let base = "start Aa\nenum Aa {\n    Vz(Bb)\n    Va {\n        z: $Tax\n        a: Aa\n    }\n    Vm\n}\nstruct Bb {\n    z: $Tbx\n    a: Cc\n}\nstruct Cc($Tax)\nterminal Tok {\n    $Tax: crate::P\n    $Tbx: crate::P\n}\n";
+    let mut out = vec![];
+    for h in helpers {
+        if h.chars().next().map(|c| c.is_ascii_lowercase()).unwrap_or(false) {
+            continue; // nonterminal names must be upper-case; `reduce` cannot be a type name
+        }
+        for k in [8usize, 9, 10, 11, 12, 99, 100, 101] {
+            let mut s = String::from(base);
+            s += &format!("struct {h}\n");
+            for i in 2..=k {
+                s += &format!("struct {h}{i}\n");
+            }
+            out.push(s);
+        }
+    }
+    out
+}
+
 pub struct NamingCase {
     pub carrier: usize,
     pub renames: Vec<(String, String)>,
@@ -227,6 +249,15 @@ pub fn run(ctx: &Ctx) -> Outcome {
             pres.names.insert(k.clone(), v.clone());
         }
         let case = Case::new(c.g.clone(), pres);
+        // precondition of C05: field names within one fieldset are distinct (kiki does not check this itself)
+        let duplicate_fields = case.rendered.names.fields.iter().any(|fs| {
+            let named: Vec<&String> = fs.iter().flatten().collect();
+            named.iter().enumerate().any(|(i, a)| named[..i].contains(a))
+        });
+        if duplicate_fields {
+            *skipped += 1;
+            return;
+        }
         match generate(&case.rendered.source) {
             Gen::Ok(text) => cases.push(NamingCase { carrier: ci, renames, source: case.rendered.source.clone(), text }),
             _ => *skipped += 1, // precondition of C05: generate returned Ok (kiki's own name-clash rules reject the rest)
@@ -265,6 +296,13 @@ pub fn run(ctx: &Ctx) -> Outcome {
             for (x, y) in [("nodes", "states"), ("t0", "t1"), ("node", "src"), ("f0", "f0_0"), ("x", "x_0"), ("new_node", "new_node_kind")] {
                 try_case(ci, vec![(field_roles[0].clone(), x.to_string()), (field_roles[1].clone(), y.to_string())], &mut cases, &mut skipped_not_ok);
             }
+        }
+    }
+    // long uniquifier chains (State, State2 .. State12 / .. State101)
+    for src in chain_sources() {
+        match generate(&src) {
+            Gen::Ok(text) => cases.push(NamingCase { carrier: 0, renames: vec![("chain".into(), src.lines().last().unwrap_or("").to_string())], source: src, text }),
+            _ => skipped_not_ok += 1,
         }
     }
     let deviation1 = cases.len();
@@ -309,7 +347,7 @@ pub fn run(ctx: &Ctx) -> Outcome {
         "deviation_2_modules": cases.len() - deviation1,
         "pool_upper_case": upper1.len(), "pool_lower_case": lower1.len(),
         "mechanical_pool_upper": mech_upper.len(), "mechanical_pool_lower": mech_lower.len(),
-        "namings_rejected_by_generate_itself (precondition not met)": skipped_not_ok,
+        "namings_outside_the_precondition (rejected by generate itself, or two equal field names in one fieldset)": skipped_not_ok,
     }));
     out.cov("modules_failing_to_compile", json!(failing));
     out.cov("distinct_error_heads", json!(distinct_errors));
